@@ -386,3 +386,83 @@ func propAbortStaysInItsRequest(t *rapid.T) {
 }
 
 func TestPropAbortStaysInItsRequest(t *testing.T) { rapid.Check(t, propAbortStaysInItsRequest) }
+
+// propLimitThenAbort: "every chain shape within the documented handler limit".  A chain that registration accepts IS
+// within the limit, however it was put together - one Use call, several, group plus route.  Whatever is accepted must
+// obey Abort; what would exceed the limit must be refused (C13) - a chain that is accepted and then ignores Abort
+// breaks this property.
+func propLimitThenAbort(t *rapid.T) {
+	ev.Case()
+	r := rux.New()
+	var ran []int
+	mk := func(i int, abort bool) rux.HandlerFunc {
+		return func(c *rux.Context) {
+			ran = append(ran, i)
+			if abort {
+				c.AbortWithStatus(403)
+				return
+			}
+			c.Next()
+		}
+	}
+	parts := rapid.SliceOfN(rapid.IntRange(1, 45), 1, 4).Draw(t, "useCalls")
+	abortAt := rapid.IntRange(0, 2).Draw(t, "abortAt")
+	accepted := true
+	total := 0
+	func() {
+		defer func() {
+			if recover() != nil {
+				accepted = false
+			}
+		}()
+		viaGroup := rapid.Bool().Draw(t, "firstPartAsGroupMiddleware")
+		add := func() {
+			rt := r.GET("/x", func(c *rux.Context) { ran = append(ran, -1); c.WriteString("main") })
+			for k, n := range parts {
+				if viaGroup && k == 0 {
+					continue
+				}
+				hs := make([]rux.HandlerFunc, n)
+				for i := range hs {
+					hs[i] = mk(total, total == abortAt)
+					total++
+				}
+				rt.Use(hs...)
+			}
+		}
+		if viaGroup {
+			hs := make([]rux.HandlerFunc, parts[0])
+			for i := range hs {
+				hs[i] = mk(total, total == abortAt)
+				total++
+			}
+			r.Group("", add, hs...)
+		} else {
+			add()
+		}
+	}()
+	ev.Eval()
+	if !accepted {
+		ev.Class("registration-refused(over the limit)")
+		return
+	}
+	rec := httptest.NewRecorder()
+	r.ServeHTTP(rec, httptest.NewRequest("GET", "/x", nil))
+	if total <= abortAt {
+		return
+	}
+	for _, i := range ran {
+		if i > abortAt || i == -1 {
+			t.Fatalf("chain of %d middleware (Use calls %v) was accepted; handler #%d aborts, yet handler %d started afterwards (ran: %v)", total, parts, abortAt, i, ran)
+		}
+	}
+	if rec.Code != 403 {
+		t.Fatalf("chain of %d middleware (Use calls %v), abort with 403 in handler #%d: status %d", total, parts, abortAt, rec.Code)
+	}
+	ev.Class(fmt.Sprintf("accepted-chain-obeys-abort:total>=40=%v", total >= 40))
+	if total >= 40 {
+		ev.NonTrivial(fmt.Sprint(parts, abortAt), func() string { return fmt.Sprintf("Use calls %v, abort in #%d", parts, abortAt) })
+	}
+}
+
+func TestPropLimitThenAbort(t *testing.T) { rapid.Check(t, propLimitThenAbort) }
